@@ -26,7 +26,7 @@ OptsOfArgs(a) == IF Get(a, "via", "") = "display" THEN DefaultOpts
 RoundMin(sec) == IF sec >= 0 THEN (2 * sec + 60) \div 120 ELSE -((2 * (-sec) + 60) \div 120)
 FmtNamed(v, offs, o) ==
   LET p == EffPrec(o.p, o.su)
-      e == SplitEpoch(Add(v.ns, K9(FromInt(offs))))
+      e == SplitEpoch(Add(FloorBig(v.ns, p), K9(FromInt(offs))))     \* the instant is rounded first, then read in the zone
       d == CivilFromDays(e.day)
       w == [y |-> d.y, m |-> d.m, d |-> d.d, h |-> e.sod \div 3600, mi |-> (e.sod \div 60) % 60, s |-> e.sod % 60,
             ms |-> e.sub \div 1000000, us |-> (e.sub \div 1000) % 1000, ns |-> e.sub % 1000]
@@ -52,7 +52,7 @@ Chained(e) == Get(e.args, "chain", FALSE) => (cur.ph = "text" /\ e.args.chars = 
 \* ... and must give back the value that was printed, when the options kept it
 RoundTripOK(e) ==
   (Get(e.args, "chain", FALSE) /\ cur.ph = "text" /\ GoalOf(e.op) = cur.ty /\ KeepsInfo(cur.ty, cur.v, cur.o) /\ ~Has(cur, "named") /\ ~Has(cur, "fmtbad")) =>
-     LET x == Expected(cur.ty, e.args.chars) IN x.kind = "any" \/ ~Has(x, "val") \/ x.val = Canon(cur.ty, cur.v)
+     LET x == Expected(cur.ty, e.args.chars) IN IF x.kind = "any" \/ ~Has(x, "val") THEN TRUE ELSE x.val = Canon(cur.ty, cur.v)   \* (IF: inside an action TLC evaluates every disjunct)
 ExpectedOf(e) == IF IsFmt(e) THEN ExpectedFmt(e) ELSE IF IsParse(e) THEN Expected(GoalOf(e.op), e.args.chars)
                  ELSE IF IsEnum(e) THEN ExpectedEnum(e) ELSE IF IsText(e) THEN ExpectedText(e) ELSE "unknown-op"
 Known(e) == IsFmt(e) \/ IsParse(e) \/ IsEnum(e) \/ IsText(e)
